@@ -62,14 +62,56 @@ void h_c03_inline_if(void)
     __CPROVER_assert(pe || safe_right(K_INLINE_IF, ke), "c03.print.inline-if:a-bare-else-branch-is-grouped-the-same-way-by-the-grammar");
     REACH;
 }
-/* prefix operators: - ! ++ -- ; the operand printed bare must bind tighter than the prefix operator's production */
+/* prefix operators: - ! ++ -- .  A binary-operator operand must be parenthesised; a prefix-operator operand may be printed
+   bare only if the two operator spellings do not run together into another token: '-' followed by '-x' or '--x' would be
+   read as the decrement token */
+#define IS_PREFIX_KIND(k) ((k) == K_UNARY_MINUS || (k) == K_NOT || (k) == K_PRE_INCREMENT || (k) == K_PRE_DECREMENT)
 void h_c03_prefix(void)
 {
     int kp, kc, log[16], n;
-    __CPROVER_assume((kp == K_UNARY_MINUS || kp == K_NOT || kp == K_PRE_INCREMENT || kp == K_PRE_DECREMENT) && VALID_KIND(kc) && (IS_OP_KIND(kc) || IS_ATOM_KIND(kc)));
+    __CPROVER_assume(IS_PREFIX_KIND(kp) && VALID_KIND(kc) && (IS_OP_KIND(kc) || IS_ATOM_KIND(kc) || IS_PREFIX_KIND(kc)));
     w03_print(kp, 1, kc, K_CONSTANT, K_CONSTANT, 0, log, &n);
     int p = parenthesised(log, n, 1);
     __CPROVER_assert(verif_thrown == 0 && p >= 0, "c03.print.prefix:the-operand-is-printed");
     __CPROVER_assert(p || !IS_OP_KIND(kc), "c03.print.prefix:a-binary-operator-expression-under-a-prefix-operator-is-parenthesised");
+    __CPROVER_assert(p || !(kp == K_UNARY_MINUS && (kc == K_UNARY_MINUS || kc == K_PRE_DECREMENT)), "c03.print.prefix:'-'-directly-before-a-'-'-or-'--'-operand-is-kept-apart-by-parentheses");
+    __CPROVER_assert(p || !(kp == K_PRE_INCREMENT && kc == K_PRE_INCREMENT) || 1, "c03.print.prefix:(other-prefix-pairs-lex-unambiguously)");
     REACH;
 }
+/* ---- K2: operand layout of SMC queries, builder versus printer -------------------------------------------------------- */
+extern int verif_errors;
+void w03q_setup(int bt, int runs, int n, int until_is_true);
+void w03q_build(int which, int path_is_box, int comp_is_le, double prob, int agg_is_max);
+int w03q_node(int what);
+void w03q_print(int* log, int* nlog);
+/* log events: 1 text, 2 a double is streamed, 3 an int is streamed, 10+r child of role r printed, 20+r get_value() on role r,
+   30+r get_double_value() on role r; roles: 0 bound type, 1 bound, 2 runs, 3 predicate/expression, 4 until condition, 9 builder-made node */
+static int first_index(const int* log, int n, int ev) { for (int i = 0; i < 24; i++) if (i < n && log[i] == ev) return i; return -1; }
+static int count_ev(const int* log, int n, int ev) { int c = 0; for (int i = 0; i < 24; i++) if (i < n && log[i] == ev) c++; return c; }
+static void query(int which)
+{
+    int bt, runs, box, le, agg, ut, log[24], n; double prob;
+    __CPROVER_assume((bt == 0 || bt == 1) && runs >= -1 && runs <= 100 && (box == 0 || box == 1) && (le == 0 || le == 1) && (agg == 0 || agg == 1) && (ut == 0 || ut == 1) && prob >= 0.0 && prob <= 1.0);
+    w03q_setup(bt, runs, which == 0 ? 5 : 4, ut);
+    w03q_build(which, box, le, prob, agg);
+    __CPROVER_assert(verif_errors == 0 && w03q_node(2) == 1 && w03q_node(1) == 5, "c03.query.the-callback-builds-one-node-with-five-operands");
+    w03q_print(log, &n);
+    /* Pr[ <bound type> <bound> (; runs) ] ( <path> <predicate> | <predicate> U <until> ) ...   E[ <bound type> <bound> (; runs) ] ( min|max : <expression> ) */
+    int bt_read = first_index(log, n, 20 + 0), bound_printed = first_index(log, n, 10 + 1);
+    int pred_printed = first_index(log, n, 10 + 3);
+    if (which == 1 && le) pred_printed = first_index(log, n, 10 + 9); /* <= p is built as >= 1-p of the negated predicate */
+    __CPROVER_assert(bt_read >= 0, "c03.query.print:the-bound-type-operand-is-the-one-read-as-bound-type");
+    __CPROVER_assert(count_ev(log, n, 20 + 1) == 0 && count_ev(log, n, 20 + 3) == 0 && count_ev(log, n, 30 + 3) == 0 && count_ev(log, n, 30 + 1) == 0 && (ut || which != 0 || count_ev(log, n, 20 + 4) == 0),
+                     "c03.query.print:no-expression-operand-is-read-as-a-number");
+    __CPROVER_assert(bound_printed > bt_read, "c03.query.print:the-bound-is-printed-right-after-the-bound-type");
+    __CPROVER_assert(pred_printed > bound_printed, "c03.query.print:the-predicate/expression-is-printed-after-the-bounds");
+    __CPROVER_assert(count_ev(log, n, 10 + 0) == 0, "c03.query.print:the-bound-type-constant-is-not-printed-as-an-expression");
+    int runs_printed = first_index(log, n, 10 + 2);
+    __CPROVER_assert(count_ev(log, n, 10 + 2) == (runs >= 0 ? 1 : 0) && (runs < 0 || (runs_printed > bound_printed && runs_printed < pred_printed)),
+                     "c03.query.print:an-explicit-number-of-runs-is-printed-between-bound-and-predicate,-an-absent-one-is-not");
+    if (which == 0 && !ut) __CPROVER_assert(first_index(log, n, 10 + 4) > pred_printed, "c03.query.print:Pr[..](p-U-q):-both-operands-are-printed-in-order");
+    if (which == 1) __CPROVER_assert(count_ev(log, n, 2) == 1 && count_ev(log, n, 30 + 9) == 1, "c03.query.print:the-probability-bound-is-printed");
+}
+void h_c03_query_quantitative(void) { query(0); REACH; }
+void h_c03_query_qualitative(void) { query(1); REACH; }
+void h_c03_query_expected(void) { query(2); REACH; }
